@@ -153,6 +153,8 @@ class ExecutionContext:
                     localScope[instruction.Variable.Reference][
                         instruction.Member
                     ] = localScope[instruction.Store.Reference]
+                    # The value of an assignment is the value that was stored
+                    localScope[ref] = localScope[instruction.Store.Reference]
                 case LinearIR.OpCode.SHUFFLE:
                     ref = instruction.Reference
                     indices = instruction.Indices
@@ -174,6 +176,8 @@ class ExecutionContext:
                     localScope[array][
                         localScope[instruction.Index.Reference]
                     ] = var
+                    # The value of an assignment is the value that was stored
+                    localScope[ref] = var
                 case _ if (opCode.value >> 16) == 0x1:
                     operation = instruction.OpCode
                     op1 = localScope[instruction.Values[0].Reference]
